@@ -24,6 +24,16 @@ fn main() {
         let _ = log::set_boxed_logger(Box::new(trusttunnel::log_utils::make_stdout_logger()));
         log::set_max_level(log::LevelFilter::Trace);
     }
+    // last line of defence against a run that never ends (a spin the logical monitors do not see): not a verdict
+    {
+        let limit = std::time::Duration::from_secs(if args.thorough() { 6 * 3600 } else { 45 * 60 });
+        let id = args.id.clone();
+        std::thread::spawn(move || {
+            std::thread::sleep(limit);
+            eprintln!("BROKEN-RUN: check {} did not finish within {} s (wall-clock watchdog; inconclusive, not a verdict)", id, limit.as_secs());
+            std::process::exit(2);
+        });
+    }
     std::fs::create_dir_all(args.root.join(".work")).ok();
     env::sweep_work(&args.root);
     // A panic that escapes a check is never a silent crash: when any panic of this process
